@@ -20,6 +20,10 @@ const (
 	OK        = "ok"
 	Violation = "violation"
 	Undecided = "undecided"
+	// Unrecognised: the code no longer has the shape a shape rule knows how to read (the logic was
+	// moved, renamed or restructured). Nothing wrong was *seen*, so this is not an alarm: the
+	// obligation is reported as not evaluated (stdout note + evidence counter) and the check passes.
+	Unrecognised = "unrecognised"
 )
 
 // Obligation is one rule instance evaluated on one construct.
@@ -167,6 +171,25 @@ func (c *Ctx) PassTrivial(rule, key, pos, detail string) {
 func (c *Ctx) Fail(rule, key, pos, detail string) {
 	c.add(Obligation{Rule: rule, Key: key, Pos: pos, Status: Violation, Detail: detail})
 }
+
+// Unrecognised records that a shape rule could not find its anchors (see the status constant).
+func (c *Ctx) Unrecognised(rule, key, pos, detail string) {
+	c.add(Obligation{Rule: rule, Key: key, Pos: pos, Status: Unrecognised, Detail: detail})
+}
+
+// Shape evaluates a shape obligation: when the anchors were not recognised the obligation is not
+// evaluated; when they were, it passes or fails like Check.
+func (c *Ctx) Shape(recognised, ok bool, rule, key, pos, okDetail, failDetail string) {
+	switch {
+	case !recognised:
+		c.Unrecognised(rule, key, pos, "shape not recognised; would have checked: "+okDetail)
+	case ok:
+		c.Pass(rule, key, pos, okDetail)
+	default:
+		c.Fail(rule, key, pos, failDetail)
+	}
+}
+
 func (c *Ctx) Unknown(rule, key, pos, detail string) {
 	c.add(Obligation{Rule: rule, Key: key, Pos: pos, Status: Undecided, Detail: detail})
 }
@@ -191,9 +214,21 @@ func (c *Ctx) Floor(rule, what string, got, min int) {
 	}
 }
 
-func (c *Ctx) Decide(s string)    { c.Decides = append(c.Decides, s) }
+// FloorShape is the vacuity guard of a shape rule anchored in one or two functions: fewer sites
+// than confirmed means the logic was moved or restructured, which is reported as an unrecognised
+// shape (not evaluated), not as an alarm.
+func (c *Ctx) FloorShape(rule, what string, got, min int) {
+	key := "instance-count:" + what
+	if got < min {
+		c.add(Obligation{Rule: rule, Key: key, Status: Unrecognised, Detail: fmt.Sprintf("found %d %s, confirmed floor is %d: the code was restructured, the rule is not evaluated on the missing sites", got, what, min)})
+	} else {
+		c.add(Obligation{Rule: rule, Key: key, Status: OK, Detail: fmt.Sprintf("%d %s (floor %d)", got, what, min), Trivial: true})
+	}
+}
+
+func (c *Ctx) Decide(s string)     { c.Decides = append(c.Decides, s) }
 func (c *Ctx) NotDecided(s string) { c.NotDecid = append(c.NotDecid, s) }
-func (c *Ctx) Trust(s string)     { c.Trusted = append(c.Trusted, s) }
+func (c *Ctx) Trust(s string)      { c.Trusted = append(c.Trusted, s) }
 
 // ---- known findings ----
 
@@ -223,13 +258,15 @@ type Result struct {
 	Undecided  []Obligation
 	Known      []Obligation
 	KnownLines []string
+	// Unrecognised shape obligations: not evaluated, not an alarm.
+	Unrecognised []Obligation
 }
 
 // Finish classifies obligations against the known-findings file, prints the report,
 // writes the evidence file and returns the exit code.
 func (c *Ctx) Finish(start time.Time, level string, findings []Finding) int {
 	// de-duplicate obligations by rule+key (keep the worst status)
-	rank := map[string]int{OK: 0, Undecided: 1, Violation: 2}
+	rank := map[string]int{OK: 0, Unrecognised: 1, Undecided: 2, Violation: 3}
 	byKey := map[string]int{}
 	var obs []Obligation
 	for _, o := range c.Obs {
@@ -277,6 +314,8 @@ func (c *Ctx) Finish(start time.Time, level string, findings []Finding) int {
 			}
 		case Undecided:
 			res.Undecided = append(res.Undecided, *o)
+		case Unrecognised:
+			res.Unrecognised = append(res.Unrecognised, *o)
 		}
 	}
 	for _, o := range res.Violations {
@@ -287,6 +326,9 @@ func (c *Ctx) Finish(start time.Time, level string, findings []Finding) int {
 	}
 	for _, l := range res.KnownLines {
 		fmt.Println(l)
+	}
+	for _, o := range res.Unrecognised {
+		fmt.Printf("NOTE unrecognised-shape: [%s] %s: %s\n", o.Rule, o.Key, o.Detail)
 	}
 	bad := len(res.Violations) + len(res.Undecided)
 
@@ -339,7 +381,8 @@ func (c *Ctx) Finish(start time.Time, level string, findings []Finding) int {
 			"analysed":            c.Stats,
 			"known_findings":      res.KnownLines,
 			"undecided":           len(res.Undecided),
-			"exhaustive":          true,
+			"unrecognised_shapes": len(res.Unrecognised),
+			"exhaustive":          len(res.Unrecognised) == 0,
 		},
 	}
 	for k, v := range c.Extra {
@@ -352,8 +395,8 @@ func (c *Ctx) Finish(start time.Time, level string, findings []Finding) int {
 		fmt.Println("cannot write evidence:", err)
 		bad++
 	}
-	fmt.Printf("property=%s tier=%s obligations=%d discharged=%d known=%d violations=%d undecided=%d wall=%.1fs\n",
-		c.Property, c.Tier, len(obs), discharged, len(res.Known), len(res.Violations), len(res.Undecided), time.Since(start).Seconds())
+	fmt.Printf("property=%s tier=%s obligations=%d discharged=%d known=%d violations=%d undecided=%d unrecognised=%d wall=%.1fs\n",
+		c.Property, c.Tier, len(obs), discharged, len(res.Known), len(res.Violations), len(res.Undecided), len(res.Unrecognised), time.Since(start).Seconds())
 	if bad > 0 {
 		rp := filepath.Join(c.VerifDir, "evidence", "replay", c.Property+".replay.json")
 		os.MkdirAll(filepath.Dir(rp), 0o755)
